@@ -350,8 +350,8 @@ Definition decode_sm (default : enc) (pdu : list Z) (h : header) : res smsg :=
   let '(opts, payload) := tl in
   do sch <- smpp_to_time sched; do val <- smpp_to_time valid;
   do _ <- check_len service 5;
-  if (match short with [] => true | _ => false end) && (match payload with [] => true | _ => false end) then Err EXN_ValueError
-  else if (match short with [] => false | _ => true end) && (match payload with [] => false | _ => true end) then Err EXN_ValueError
+  (* an empty text (sm_length 0, no message_payload) is legal; text in both places is not *)
+  if (match short with [] => false | _ => true end) && (match payload with [] => false | _ => true end) then Err EXN_ValueError
   else Ok {| s_seq := h_seq h; s_status := 0; s_short := short;
              s_src := {| ph_number := snum; ph_ton := ston; ph_npi := snpi |};
              s_dst := {| ph_number := dnum; ph_ton := dton; ph_npi := dnpi |};
